@@ -134,9 +134,7 @@ let f _id vs =
         let restr = match as_list rl with [_; l] -> List.map parse_restr (as_list l) | _ -> failwith "restrictions" in
         let fl = { uf_obj = parse_ofilter o; uf_rel = as_cbytes r; uf_restr = restr; uf_conds = parse_conds c } in
         decide ~oc ~contract:(wf_usersets_filter fl) ~spec:(read_userset_tuples_spec s fl) ~option_result:false
-          { name = "memory"; impl = rm; model = memory_read_userset_tuples s fl;
-            flags = flag (flag_usersets_conditions_ignored s fl) "usersets_conditions_ignored_memory"
-                    @ flag (flag_usersets_duplicate_restrictions s fl) "usersets_duplicate_restrictions_memory" }
+          { name = "memory"; impl = rm; model = memory_read_userset_tuples s fl; flags = [] }
           { name = "sqlite"; impl = rs; model = sql_read_userset_tuples s fl; flags = [] }
       | 5, [ot; r; us; oids; c] ->
         let users = List.map (fun u -> match as_list u with [a; b; c] -> parse_user a b c | _ -> failwith "user") (as_list us) in
